@@ -25,9 +25,9 @@ EXPLANATION = (
     '0/EEXIST for a block not yet added, flags follow the acknowledgements (create->added, start->started, stop->not started, '
     'delete/ENOENT->neither); R7 data packets: block id byte 0, little-endian 24-bit timestamp bytes 1..3, payload from 4, variables '
     'decoded in order with the table\'s format and size for fetch_as; R8 SyncLogger: samples enter one FIFO in callback order, leave one '
-    'per __next__, the disconnect sentinel is queued after disconnect().')
+    'per __next__, the disconnect sentinel is queued after disconnect(), the enqueue is unconditional; R10 the sample fan-out (Caller.call) invokes every registered consumer once over a snapshot (shared with C07.R2).')
 ASSUMPTIONS = ['firmware reads log block records as type byte + 16-bit id (TOC) / 32-bit address (memory)']
-FLOORS = {'R9': 5, 'R1': 8, 'R2': 10, 'R3': 4, 'R4': 3, 'R5': 1, 'R6': 8, 'R7': 8, 'R8': 5}
+FLOORS = {'R9': 5, 'R1': 8, 'R2': 10, 'R3': 4, 'R4': 3, 'R5': 1, 'R6': 8, 'R7': 8, 'R8': 5, 'R10': 2}
 
 
 def check(ctx):
@@ -250,7 +250,13 @@ def check(ctx):
     ctx.inst('R8', ini, 'fifo', len(q) == 1 and norm(q[0].value) == 'Queue()', 'samples are buffered in a FIFO Queue')
     lcb = S.method('_log_callback')
     puts = [c for c in walk_own(lcb.node) if method_call(c, 'put') and norm(c.func.value) == 'self._queue']
-    ctx.inst('R8', lcb, 'enqueue-each-sample', len(puts) == 1 and norm(puts[0].args[0]) == '(%s)' % ', '.join(lcb.params[1:4]) and len(effective(lcb.node.body)) == 1, 'each decoded sample is enqueued once, as received')
+    gl = cfg_of(lcb)
+    pn = [n for c in puts for n in gl.nodes_containing(c)]
+    uncond = len(pn) == 1 and not gl.fact_keys_at(pn[0]) and ('n', pn[0].id) in gl.dom()[('n', gl.exit.id)]
+    ctx.inst('R8', lcb, 'enqueue-each-sample', len(puts) == 1 and norm(puts[0].args[0]) == '(%s)' % ', '.join(lcb.params[1:4]) and len(effective(lcb.node.body)) == 1 and uncond and
+             not puts[0].keywords and len(puts[0].args) == 1, 'each decoded sample is enqueued once, as received, unconditionally (no state test: samples arrive while connect() is still running)')
+    from .c07 import caller_rules
+    caller_rules(ctx, 'R10')      # LogConfig.data_received_cb is a Caller: every registered consumer gets each sample once (shared with C07.R2)
     nx = S.method('__next__')
     gets = [c for c in walk_own(nx.node) if method_call(c, 'get') and norm(c.func.value) == 'self._queue']
     rets = [norm(s.value) for s in walk_own(nx.node) if isinstance(s, ast.Return) and s.value is not None]
@@ -283,6 +289,7 @@ def fold_size(f, size):
 
 
 VARIANTS = [
+    M('R8', SL, "        self._queue.put((ts, data, logblock))\n", "        if self._is_connected:\n            self._queue.put((ts, data, logblock))\n", 'samples dropped until connect() has returned'),
     M('R1', LOG, "(logconf.period > 0 and logconf.period < 0xFF)):", "(logconf.period > 0 and logconf.period < 0x100)):", 'period < 0x100'),
     M('R1', LOG, "        if (size <= LogConfig.MAX_LEN and", "        if (size < LogConfig.MAX_LEN + 2 and", 'size bound'),
     M('R1', LOG, "    MAX_LEN = 26\n", "    MAX_LEN = 30\n", 'MAX_LEN'),
